@@ -5,6 +5,12 @@ go 1.23
 require (
 	github.com/anishathalye/porcupine v1.3.0
 	github.com/bytom/bytom v0.0.0
+	github.com/golang/protobuf v1.4.3
+	github.com/pborman/uuid v1.2.1
+	github.com/sirupsen/logrus v1.8.1
+	github.com/tendermint/go-wire v0.16.0
+	github.com/tendermint/tmlibs v0.9.0
+	golang.org/x/crypto v0.0.0-20210322153248-0c34fe9e7dc2
 )
 
 require (
@@ -13,7 +19,6 @@ require (
 	github.com/go-kit/kit v0.10.0 // indirect
 	github.com/go-logfmt/logfmt v0.5.0 // indirect
 	github.com/golang/groupcache v0.0.0-20210331224755-41bb18bfe9da // indirect
-	github.com/golang/protobuf v1.4.3 // indirect
 	github.com/golang/snappy v0.0.3 // indirect
 	github.com/google/uuid v1.2.0 // indirect
 	github.com/gorilla/websocket v1.4.2 // indirect
@@ -25,15 +30,10 @@ require (
 	github.com/lestrrat-go/file-rotatelogs v2.4.0+incompatible // indirect
 	github.com/lestrrat-go/strftime v1.0.4 // indirect
 	github.com/miekg/dns v1.1.41 // indirect
-	github.com/pborman/uuid v1.2.1 // indirect
 	github.com/pkg/errors v0.9.1 // indirect
 	github.com/prometheus/prometheus v1.8.2 // indirect
-	github.com/sirupsen/logrus v1.8.1 // indirect
 	github.com/syndtr/goleveldb v1.0.1-0.20200815110645-5c35d600f0ca // indirect
-	github.com/tendermint/go-wire v0.16.0 // indirect
-	github.com/tendermint/tmlibs v0.9.0 // indirect
 	github.com/toqueteos/webbrowser v1.2.0 // indirect
-	golang.org/x/crypto v0.0.0-20210322153248-0c34fe9e7dc2 // indirect
 	golang.org/x/net v0.0.0-20210410081132-afb366fc7cd1 // indirect
 	golang.org/x/sync v0.0.0-20210220032951-036812b2e83c // indirect
 	golang.org/x/sys v0.0.0-20210412220455-f1c623a9e750 // indirect
